@@ -2,6 +2,7 @@ package rules
 
 import (
 	"fmt"
+	"go/token"
 	"sort"
 	"strings"
 
@@ -57,6 +58,7 @@ func C09(c *Ctx) {
 	r.Rule("R09.2", "hash last: in processExecuteEvent (and genesis) every store to a header field that BlockHeader.Hash covers (field set read from the pinned bitxhub-model source) is sequenced before block.BlockHash = block.Hash(); BlockHash is assigned from Hash() of the same block.")
 	r.Rule("R09.3", "parent link: ParentHash is assigned from the executor's currentBlockHash, which is assigned only from the just-persisted block's BlockHash (after PersistBlockData), from the ledger's chain meta at construction, and in rollbackBlocks.")
 	r.Rule("R09.4", "roots over what is stored: the transaction root is computed from the block's own transaction slice and the receipt root from the very receipt slice that is stored with the block; no receipt field covered by Receipt.Hash is stored to after the receipt root was computed.")
+	r.Rule("R09.6", "no stale chain meta: a value read from the old chain meta (height, hash, interchain count) that is stored into the chain meta a function persists / installs (persistChainMeta, UpdateChainMeta) is read after the last update of that field on the path - a copy taken before the removal loop of a rollback misses the loop's subtractions.")
 	r.Rule("R09.5", "interchain count: persisting and rolling back adjust InterchainTxCount by the same function of InterchainMeta.Counter (sum of len(Slice)).")
 	r.NotDecided = append(r.NotDecided, "blockfile internals (pinned dependency); value-level equality of stored and recomputed roots")
 
@@ -317,6 +319,7 @@ func C09(c *Ctx) {
 			}
 			return hasCounter && hasLen
 		}
+		c.staleMetaReads()
 		r.Check(shape(persist) && shape(gic), "R09.5", "interchain count: persist and rollback use sum(len(Counter[k].Slice))", c.P.Pos(persist.Pos()), "both sides sum len(Slice) over InterchainMeta.Counter", "persist and rollback do not compute the interchain count the same way")
 	}
 }
@@ -390,4 +393,80 @@ func heightExpr(fn *ssa.Function, v ssa.Value, d int) string {
 		return "field " + f
 	}
 	return "?"
+}
+
+// staleMetaReads: R09.6.
+func (c *Ctx) staleMetaReads() {
+	r := c.R
+	n := 0
+	for _, spec := range []string{chainPrefix + "RollbackBlockChain", chainPrefix + "PersistExecutionResult"} {
+		fn := c.fn("R09.6", spec)
+		if fn == nil {
+			continue
+		}
+		isSink := func(in ssa.Instruction) bool {
+			call, ok := in.(ssa.CallInstruction)
+			if !ok {
+				return false
+			}
+			n := core.CalleeName(call)
+			return strings.HasSuffix(n, ".persistChainMeta") || strings.HasSuffix(n, ".UpdateChainMeta")
+		}
+		sinks := sites(fn, isSink)
+		// field loads of a ChainMeta that feed a store into a field of a freshly allocated ChainMeta
+		for _, b := range fn.Blocks {
+			for _, in := range b.Instrs {
+				st, ok := in.(*ssa.Store)
+				if !ok {
+					continue
+				}
+				dfa, ok := st.Addr.(*ssa.FieldAddr)
+				if !ok || !strings.HasSuffix(core.RecvTypeName(dfa.X.Type()), "pb.ChainMeta") {
+					continue
+				}
+				if _, fresh := core.Strip(dfa.X).(*ssa.Alloc); !fresh {
+					continue
+				}
+				// loads feeding the stored value
+				var loads []*ssa.UnOp
+				core.Mentions(st.Val, func(v ssa.Value) bool {
+					if u, ok := v.(*ssa.UnOp); ok && u.Op == token.MUL {
+						if fa, ok := u.X.(*ssa.FieldAddr); ok && strings.HasSuffix(core.RecvTypeName(fa.X.Type()), "pb.ChainMeta") && core.Strip(fa.X) != core.Strip(dfa.X) {
+							loads = append(loads, u)
+						}
+					}
+					return false
+				})
+				for _, ld := range loads {
+					n++
+					lfa := ld.X.(*ssa.FieldAddr)
+					_, fld, _, _ := core.FieldOf(lfa)
+					// a later store to the same field of the same object, before a sink
+					after := core.Reach([]core.Point{core.After(ld)}, nil, nil)
+					bad := ""
+					for _, b2 := range fn.Blocks {
+						for _, in2 := range b2.Instrs {
+							s2, ok := in2.(*ssa.Store)
+							if !ok || !after.Has(in2) {
+								continue
+							}
+							fa2, ok := s2.Addr.(*ssa.FieldAddr)
+							if !ok || fa2.Field != lfa.Field || !sameBase(fa2.X, lfa.X) {
+								continue
+							}
+							afterS := core.Reach([]core.Point{core.After(s2)}, nil, nil)
+							for _, sk := range sinks {
+								if afterS.Has(sk) {
+									bad = c.P.Pos(s2.Pos())
+								}
+							}
+						}
+					}
+					key := shortFn(fn) + ": new chain meta ." + fld + " read after its last update"
+					r.Check(bad == "", "R09.6", fmt.Sprintf("%s #%d", key, n), c.P.Pos(ld.Pos()), "no later store to the field before the meta is persisted", "the value copied into the new chain meta is read here, but the field is updated afterwards at "+bad+" and the stale copy is what gets persisted: the chain meta disagrees with the blocks that remain")
+				}
+			}
+		}
+	}
+	r.Floor("R09.6", "old-meta reads feeding a persisted chain meta", n, 1)
 }
